@@ -25,7 +25,12 @@ func NewSession() *Session {
 	if err != nil {
 		panic(err)
 	}
-	return &Session{OS: o, I: i}
+	s := &Session{OS: o, I: i}
+	// same default option stack as _main builds (without CLI arguments); global state persists per Interp
+	if _, err := s.Eval(nil, `_options_stack([_opt_build_default_fixed]) | empty`); err != nil {
+		panic(err)
+	}
+	return s
 }
 
 func (s *Session) Close() { s.I.Stop() }
